@@ -266,6 +266,8 @@ class Interp:
             return canon(item)
         meth = getattr(self, "op_" + op)
         w = self.w
+        if "ext" in st and pos not in w.externals:
+            w.externals[pos] = st["ext"]
         w.rec("call-begin", pos=pos, op=op)
         try:
             v = meth(ctx, st, pos, item)
